@@ -62,3 +62,36 @@ func init() {
 		},
 	}
 }
+
+const nHandSets = 17
+
+func lookupJobs(h string, nsets, maxLh, maxLp int) []*Job {
+	var js []*Job
+	for s := 0; s < nsets; s++ {
+		for lh := 0; lh <= maxLh; lh++ {
+			for lp := 1; lp <= maxLp; lp++ {
+				js = append(js, &Job{Harness: h, Params: map[string]int{"set": s, "lh": lh, "lp": lp}})
+			}
+		}
+	}
+	return js
+}
+
+func init() {
+	props["C01"] = &PropSpec{
+		ID: "C01",
+		Jobs: func(tier string) []*Job {
+			if tier == "thorough" {
+				return lookupJobs("C01Lookup", nHandSets+187, 5, 9)
+			}
+			return lookupJobs("C01Lookup", nHandSets+47, 3, 7)
+		},
+		Bounds: func(tier string) string {
+			if tier == "thorough" {
+				return "200 corpus route sets x every Host of 0..5 bytes x every path of 1..9 bytes (full byte alphabet, no empty segment), method GET"
+			}
+			return "60 corpus route sets x every Host of 0..3 bytes x every path of 1..7 bytes (full byte alphabet, no empty segment), method GET"
+		},
+		RequiredCovers: []string{"direct match", "no direct match", "matched via hostname", "one backtrack", "two backtracks", "infix catch-all matched"},
+	}
+}
